@@ -85,3 +85,153 @@ Theorem C12_diags_ignore_udef : C12_diags_statement.
 Proof. exact diags_ignore_udef. Qed.
 Check C12_diags_ignore_udef : C12_diags_statement.
 Print Assumptions C12_diags_ignore_udef.
+
+(* ---------------------------------------------------------------------------------------------- *)
+(* (f) the equations of (a) on the graphs the pipeline returns.  Proofs in Proofs/PipeEqProofs.v.
+
+   `gen_full_cfg` runs the ecall-termination step once more AFTER the last value analysis (stage 9 of
+   `gen_cfg_upto`; then stage 10 = `ecall_terminate`, stage 11 = liveness).  That step removes the
+   out-edges of every ecall whose a7 fact is the constant 10 or 93.  Removing an edge p -> i changes the
+   equation of i (its meet loses out[p]) but not the facts stored at i, so on the final graph the
+   equation of i can fail - exactly at the nodes that lost a predecessor in that step (known finding
+   'stale facts behind a late exit'; witness below).  The stored facts are then those of a graph with
+   MORE edges: they claim less than the least solution would, never more (Props/C01pipe.v). *)
+From RV.Model Require Import I32 Imm Reader.
+From RV.Spec Require Import PipeEqSpec.
+From RV.Proofs Require Import PipeEqProofs.
+
+(* the equations, one node at a time *)
+Definition C12_eqn_at_statement : Prop :=
+  forall g, AvailEqns g <-> forall i, (i < length (gnodes g))%nat -> AvailEqnAt g i.
+Theorem C12_eqn_at : C12_eqn_at_statement.
+Proof. exact AvailEqns_at_lt. Qed.
+Check C12_eqn_at : C12_eqn_at_statement.
+Print Assumptions C12_eqn_at.
+
+(* the ecall-termination step changes edges only: instructions and value facts stay; the predecessor
+   list of a node only shrinks, and changes only if the node had an exit ecall among its predecessors *)
+Definition C12_term_frame_statement : Prop :=
+  forall g, same_values g (ecall_terminate g) /\
+    forall i c d, nth_opt (gnodes g) i = Some c -> nth_opt (gnodes (ecall_terminate g)) i = Some d ->
+      incl (prevs d) (prevs c) /\ (prevs d = prevs c \/ lost_pred g i).
+Theorem C12_ecallterm_frame : C12_term_frame_statement.
+Proof. exact ecallterm_frame. Qed.
+Check C12_ecallterm_frame : C12_term_frame_statement.
+Print Assumptions C12_ecallterm_frame.
+
+(* a node whose predecessor list the step leaves alone keeps its equation *)
+Definition C12_term_keeps_eqn_statement : Prop :=
+  forall g i, AvailEqnAt g i ->
+    (forall c d, nth_opt (gnodes g) i = Some c -> nth_opt (gnodes (ecall_terminate g)) i = Some d ->
+       prevs d = prevs c) ->
+    AvailEqnAt (ecall_terminate g) i.
+Theorem C12_ecallterm_keeps_eqn : C12_term_keeps_eqn_statement.
+Proof. exact ecallterm_keeps_eqn. Qed.
+Check C12_ecallterm_keeps_eqn : C12_term_keeps_eqn_statement.
+Print Assumptions C12_ecallterm_keeps_eqn.
+
+(* the step leaves a graph alone exactly when every exit ecall is cut off already *)
+Definition C12_term_fixed_statement : Prop :=
+  forall h, ecall_terminate h = h <-> exits_cut h.
+Theorem C12_ecallterm_fixed_iff : C12_term_fixed_statement.
+Proof. exact ecallterm_fixed_iff. Qed.
+Check C12_ecallterm_fixed_iff : C12_term_fixed_statement.
+Print Assumptions C12_ecallterm_fixed_iff.
+
+(* the pipeline: with h6 the graph after the last value analysis, h6 satisfies all equations; the final
+   graph carries the instructions and value facts of h6, and predecessor lists included in those of h6; a
+   node whose predecessor list is still that of h6 satisfies its equation; every node satisfies its
+   equation or lost a predecessor - an exit ecall of h6 - in the last ecall-termination step *)
+Definition C12_pipeline_eqns_statement : Prop :=
+  forall picks ns g, gen_full_cfg picks ns = Ok (SOk g) ->
+    exists h6, gen_cfg_upto 9 picks ns = Ok (SOk h6) /\ AvailEqns h6 /\ same_values h6 g /\
+      (forall i c6 c, nth_opt (gnodes h6) i = Some c6 -> nth_opt (gnodes g) i = Some c ->
+         incl (prevs c) (prevs c6) /\ (prevs c = prevs c6 -> AvailEqnAt g i)) /\
+      (forall i, AvailEqnAt g i \/ lost_pred h6 i).
+Theorem C12_pipeline_eqns : C12_pipeline_eqns_statement.
+Proof. exact pipeline_eqns. Qed.
+Check C12_pipeline_eqns : C12_pipeline_eqns_statement.
+Print Assumptions C12_pipeline_eqns.
+
+(* when the last value analysis found no exit that was not cut off before, the final graph satisfies the
+   equations outright *)
+Definition C12_pipeline_eqns_clean_statement : Prop :=
+  forall picks ns g h6, gen_full_cfg picks ns = Ok (SOk g) ->
+    gen_cfg_upto 9 picks ns = Ok (SOk h6) -> ecall_terminate h6 = h6 -> AvailEqns g.
+Theorem C12_pipeline_eqns_clean : C12_pipeline_eqns_clean_statement.
+Proof. exact pipeline_eqns_clean. Qed.
+Check C12_pipeline_eqns_clean : C12_pipeline_eqns_clean_statement.
+Print Assumptions C12_pipeline_eqns_clean.
+
+(* the exception is necessary.  The first analysis sees both values of t0 reach X (the `ecall` before X
+   still falls through), so a7 is unknown at the second `ecall`; the first termination step cuts the edge
+   into X; the last analysis then finds a7 = 10 at the second `ecall`, and the last termination step cuts
+   the edge to `li a7, 1` (node 8), which keeps the facts t0 = 10, a7 = 10 although it has no predecessor
+   left: its equation fails, at that node only. *)
+Fixpoint unlines (l : list str) : str := match l with [] => [] | x :: l' => x ++ [c_nl] ++ unlines l' end.
+Definition w_text : str := unlines
+  [ «"main:"»; «"    li t0, 10"»; «"    beqz a0, X"»; «"    li t0, 5"»; «"    li a7, 10"»; «"    ecall"»;
+    «"X:"»; «"    addi a7, t0, 0"»; «"    ecall"»; «"    li a7, 1"»; «"    li a0, 3"»; «"    ecall"»;
+    «"    li a7, 10"»; «"    ecall"» ].
+Definition w_path : str := «"w.s"».
+Definition w_nodes : list pnode :=
+  match parse_from_file false [(w_path, inl w_text)] w_path false with Ok (nodes, _, _) => nodes | _ => [] end.
+Definition w_h6 : cfg :=
+  match gen_cfg_upto 9 [] w_nodes with Ok (SOk g) => g | _ => mkcfg [] [] [] end.
+Definition w_final : cfg :=
+  match gen_full_cfg [] w_nodes with Ok (SOk g) => g | _ => mkcfg [] [] [] end.
+
+Example C12_pipeline_eqn_exception :
+  (exists rs, parse_from_file false [(w_path, inl w_text)] w_path false = Ok (w_nodes, [], rs)) /\
+  gen_full_cfg [] w_nodes = Ok (SOk w_final) /\ gen_cfg_upto 9 [] w_nodes = Ok (SOk w_h6) /\
+  length (gnodes w_final) = 13%nat /\
+  option_map (fun c => (is_ecall (cn c), prevs c)) (nth_opt (gnodes w_h6) 7) = Some (true, [6%nat]) /\
+  option_map (fun c => (prevs c, rin c)) (nth_opt (gnodes w_final) 8) =
+    Some ([], [(1, AOrig 1 0); (2, AOrig 2 0); (5, AConst 10); (17, AConst 10)]) /\
+  ~ AvailEqnAt w_final 8 /\ lost_pred w_h6 8 /\
+  (forall i, i <> 8%nat -> AvailEqnAt w_final i) /\
+  ~ AvailEqns w_final /\ ecall_terminate w_h6 <> w_h6.
+Proof.
+  assert (N8 : ~ AvailEqnAt w_final 8).
+  { intros E. apply avail_eqn_atb_spec in E. vm_compute in E. discriminate E. }
+  split. { eexists. vm_compute. reflexivity. }
+  split. { vm_compute. reflexivity. }
+  split. { vm_compute. reflexivity. }
+  split. { vm_compute. reflexivity. }
+  split. { vm_compute. reflexivity. }
+  split. { vm_compute. reflexivity. }
+  split. { exact N8. }
+  split. { apply (lost_pred_check w_h6 8 7). vm_compute. reflexivity. }
+  split. { intros i Hi. apply (eqns_except w_final [8%nat]); [vm_compute; reflexivity|].
+           intros [Hin|[]]. apply Hi. symmetry. exact Hin. }
+  split. { intros E. apply N8. apply (proj1 (AvailEqns_at w_final) E). }
+  intros E. apply (proj1 (ecallterm_fixed_iff w_h6)) in E.
+  pose proof (lost_pred_check w_h6 8 7) as L. 
+  destruct L as [p [cp [ci [Hp [_ [Hx [Hn _]]]]]]]; [vm_compute; reflexivity|].
+  rewrite (E p cp Hp Hx) in Hn. destruct Hn.
+Qed.
+
+(* the clean case is not vacuous: a program with a call and one exit, found by the first analysis *)
+Definition v_text : str := unlines
+  [ «"main:"»; «"    li a0, 1"»; «"    jal ra, f"»; «"    li a7, 10"»; «"    ecall"»;
+    «"f:"»; «"    addi a0, a0, 1"»; «"    ret"» ].
+Definition v_nodes : list pnode :=
+  match parse_from_file false [(w_path, inl v_text)] w_path false with Ok (nodes, _, _) => nodes | _ => [] end.
+Definition v_h6 : cfg :=
+  match gen_cfg_upto 9 [] v_nodes with Ok (SOk g) => g | _ => mkcfg [] [] [] end.
+Definition v_final : cfg :=
+  match gen_full_cfg [] v_nodes with Ok (SOk g) => g | _ => mkcfg [] [] [] end.
+Example C12_pipeline_eqns_clean_example :
+  (exists rs, parse_from_file false [(w_path, inl v_text)] w_path false = Ok (v_nodes, [], rs)) /\
+  gen_full_cfg [] v_nodes = Ok (SOk v_final) /\ gen_cfg_upto 9 [] v_nodes = Ok (SOk v_h6) /\
+  length (gnodes v_final) = 8%nat /\ ecall_terminate v_h6 = v_h6 /\ AvailEqns v_final.
+Proof.
+  assert (A : gen_full_cfg [] v_nodes = Ok (SOk v_final)) by (vm_compute; reflexivity).
+  assert (B : gen_cfg_upto 9 [] v_nodes = Ok (SOk v_h6)) by (vm_compute; reflexivity).
+  assert (C : ecall_terminate v_h6 = v_h6) by (vm_compute; reflexivity).
+  split. { eexists. vm_compute. reflexivity. }
+  split; [exact A|]. split; [exact B|]. split. { vm_compute. reflexivity. }
+  split; [exact C|]. exact (C12_pipeline_eqns_clean [] v_nodes v_final v_h6 A B C).
+Qed.
+Print Assumptions C12_pipeline_eqn_exception.
+Print Assumptions C12_pipeline_eqns_clean_example.
